@@ -647,6 +647,26 @@ def c04_oracle(script, rec):
     return bad
 
 
+def c04_outside_cast_cases():
+    """assignments whose conversion is outside the C cast's domain (the model answers 'unspec' and the comparison of
+    values ends there): whatever value the element gets, the tree must keep its shape -- the invariant is evaluated on
+    every dump of the implementation"""
+    import struct
+    def fx(d):
+        return "x%016x" % struct.unpack(">Q", struct.pack(">d", d))[0]
+    big = [3.0e9, -4.0e12, 2147483648.0, -2147483649.0, 9.3e18, 1e19, -1e19, float("inf"), float("-inf"), float("nan"), 1e300]
+    cases = []
+    for ety, fill in ((2, "i"), (3, "l")):
+        for d in big:
+            for how in ("eset", "set"):
+                for pos in (0, 2):
+                    body = ["init", "option 1 1", "add . %s 7" % hx(b"a")] + ["eset %s 0 -1 %d" % (fill, v) for v in (20, 2, 30, 40)] + ["dump"]
+                    body.append("eset f 0 %d %s" % (pos, fx(d)) if how == "eset" else "set f 0/%d %s" % (pos, fx(d)))
+                    body += ["dump", "eset %s 0 -1 7" % fill, "dump", "eset f 0 -1 %s" % fx(d), "dump", "option 1 0", "eset %s 0 -1 9" % fill, "dump", "write", "destroy"]
+                    cases.append("\n".join(body) + "\n")
+    return cases
+
+
 def run_c04(ctx):
     res = Result()
     rc = replay_cases(ctx)
@@ -662,6 +682,7 @@ def run_c04(ctx):
         nrand = 500 if ctx.tier == "quick" else 5000
         for i in range(nrand):
             cases.append(gen_api.random_history(rng, rng.choice([20, 60, 200]), crossing=(i % 3 == 0)))
+        cases += c04_outside_cast_cases()
     res.rule = ("exhaustive histories to depth %s over a %d-op alphabet + random histories of 20-200 calls, a "
                 "third of them growing aggregates across the 16/32-child boundaries; after every call the "
                 "dumped real tree is checked against the invariant and the harness's pointer-level flags; "
@@ -748,19 +769,108 @@ def c07_cases():
                     for v in C07_STORE[k]:
                         if k == "f" and st in "il" and auto and not c07_castable(v, st):
                             continue
+                        # after the assignment every numeric view of the setting is read (an integer setting converts
+                        # to every numeric kind without leaving the casts' domain): what was stored is what is read
+                        views = "ilf" if st in "il" else st
                         body = list(pre) + ["set %s 0 %s" % (k, c07_val(k, v)), "dump",
-                                            "get %s 0" % st if not (st == "f" and False) else "dump",
-                                            "eset %s 1 0 %s" % (k, c07_val(k, v)), "eset %s 2 0 %s" % (k, c07_val(k, v)),
-                                            "dump", "eset %s 2 -1 %s" % (k, c07_val(k, v)), "dump"]
+                                            "get %s 0" % st if not (st == "f" and False) else "dump"] + \
+                                           ["get %s 0" % w for w in views if w != st] + \
+                                           ["mlook %s . %s" % (w, hx(b"s")) for w in views] + \
+                                           ["eset %s 1 0 %s" % (k, c07_val(k, v)), "eset %s 2 0 %s" % (k, c07_val(k, v)),
+                                            "dump"] + ["eget %s 1 0" % w for w in views] + ["eget %s 2 0" % w for w in views] + \
+                                           ["plook %s %s" % (w, hx(b"l.[0]")) for w in views] + \
+                                           ["eset %s 2 -1 %s" % (k, c07_val(k, v)), "dump"]
                         cases.append("\n".join(body) + "\n")
     return cases
 
 
+def c07_doc_numeric(script, rec):
+    """The documented conversion rules replayed over the numeric scalar settings of the root group (add . NAME T, set K
+    IDX V, get K IDX, option 1 B), whatever the shape of the script: independent of the model, used on shrunk scripts."""
+    import struct
+    bad = []
+    al = align(script, rec["impl"])
+    auto = 0
+    vals = []          # per root member: [kind, value] for numeric scalars, None otherwise
+    def fbits(x):
+        return "f%016x" % struct.unpack("<Q", struct.pack("<d", x))[0]
+    def fval(tok):
+        return struct.unpack("<d", struct.pack("<Q", int(tok[1:], 16)))[0]
+    for op, out in al:
+        f = op.split(" ")
+        if not out:
+            break
+        r = out[0][2:]
+        if f[0] in ("init", "dump", "write"):
+            continue
+        if f[0] == "option" and len(f) == 3:
+            if f[1] == "1":
+                auto = int(f[2])
+            continue
+        if f[0] == "add" and len(f) == 4 and f[1] == ".":
+            if r.startswith("n"):
+                t = int(f[3])
+                vals.append({2: ["i", 0], 3: ["l", 0], 4: ["f", 0.0]}.get(t))
+            continue
+        if f[0] in ("set", "get") and len(f) >= 3 and f[1] in "ilf" and f[2].isdigit() and int(f[2]) < len(vals) and vals[int(f[2])]:
+            cur = vals[int(f[2])]
+            st, sv = cur
+            k = f[1]
+            if f[0] == "set" and len(f) == 4:
+                v = fval(f[3]) if k == "f" else int(f[3])
+                if k == "f" and v != v:
+                    break
+                if k == st:
+                    ok, nv = True, v
+                elif st == "l" and k == "i":
+                    ok, nv = True, v
+                elif st == "i" and k == "l":
+                    ok, nv = (-2**31 <= v <= 2**31 - 1), v
+                elif st == "f":
+                    ok, nv = bool(auto), float(v)
+                else:       # float into an integer setting
+                    lo, hi = (-2**31, 2**31 - 1) if st == "i" else (-2**63 + 2048, 2**63 - 2048)
+                    if auto and not (lo - 1 < v < hi + 1):
+                        break                      # outside the cast's domain: nothing documented
+                    ok, nv = bool(auto), int(v) if auto else None
+                if (r == "i1") != ok:
+                    bad.append("'%s' on a stored %s (auto-convert %d) returned %s; documented: %s" % (op, st, auto, r, "success" if ok else "failure"))
+                    break
+                if ok:
+                    cur[1] = nv
+                continue
+            if f[0] == "get" and len(f) == 3:
+                if k == st:
+                    want = fbits(sv) if k == "f" else "i%d" % sv
+                elif k == "l" and st == "i":
+                    want = "i%d" % sv
+                elif k == "i" and st == "l":
+                    want = "i%d" % (sv if -2**31 <= sv <= 2**31 - 1 else 0)
+                elif k == "f":
+                    want = fbits(float(sv)) if auto else fbits(0.0)
+                else:
+                    lo, hi = (-2**31, 2**31 - 1) if k == "i" else (-2**63 + 2048, 2**63 - 2048)
+                    if auto and not (lo - 1 < sv < hi + 1):
+                        break
+                    want = "i%d" % (int(sv) if auto else 0)
+                if r != want:
+                    bad.append("'%s': the setting holds %s %r (auto-convert %d), so the documented answer is %s; got %s" % (op, st, sv, auto, want, r))
+                    break
+                continue
+        break              # anything else: stop interpreting
+    return bad
+
+
 def c07_oracle(script, rec):
+    extra = []
     try:
-        return c07_oracle_(script, rec)
+        extra = c07_doc_numeric(script, rec)
     except (IndexError, ValueError, KeyError):
-        return died(script, rec)
+        extra = []
+    try:
+        return c07_oracle_(script, rec) + extra
+    except (IndexError, ValueError, KeyError):
+        return died(script, rec) + extra
 
 
 def c07_oracle_(script, rec):
@@ -1735,7 +1845,7 @@ C15_TEXTS = [b"a = 1.5; b = [ 2.25e2, 0.125, -7.0 ]; c = \"x,y 1,5\"; d = ( 1e-3
 
 
 def c15_body(glob, thr):
-    body = ["init", "fs put %s %s" % (hx(b"locinc.cfg"), hx(b"h = 9.5;\n")),
+    body = ["init", "fs put %s %s" % (hx(b"locinc.cfg"), hx(b"h = 9.5;\n")), "fs put %s %s" % (hx(b"locinc2.cfg"), hx(b"h2 = 0.25;\n")),
             "fs put %s %s" % (hx(b"locfile.cfg"), hx(C15_TEXTS[0]))]
     if glob:
         body.append("locale global %s" % hx(glob))
@@ -1751,6 +1861,14 @@ def c15_body(glob, thr):
         # re-entrant use: the include function itself reads and writes another configuration
         body += ["incfn nested", "reads %s" % hx(b"n = 0.5;\n@include \"locinc.cfg\"\nm = 2.25;\n"), "locq", "dump", "write", "locq",
                  "reads %s" % hx(b"@include \"locinc.cfg\"\nbad = ;\n"), "locq", "incfn default"]
+        # every way an include directive can end (no file, NULL, several files, an error, a missing file), each with
+        # floats before and after the directive and a float-bearing read after it
+        inc_text = b"p = 0.125;\n@include \"locinc.cfg\"\nq = -3.75e2;\nr = [ 1.5, 2.5 ];\n"
+        for fn in ("incfn empty", "incfn null", "incfn multi %s,%s" % (hx(b"locinc.cfg"), hx(b"locinc2.cfg")),
+                   "incfn multi %s,%s" % (hx(b"locinc.cfg"), hx(b"nosuch.cfg")), "incfn fail %s" % hx(b"refused")):
+            body += [fn, "reads %s" % hx(inc_text), "locq", "dump", "write", "locq", "reads %s" % hx(C15_TEXTS[0]), "locq", "dump"]
+        body += ["incfn default", "reads %s" % hx(b"p = 0.5;\n@include \"nosuch.cfg\"\nq = 1.5;\n"), "locq", "dump",
+                 "reads %s" % hx(C15_TEXTS[0]), "locq", "dump"]
     return "\n".join(body) + "\n"
 
 
@@ -1785,7 +1903,9 @@ def run_c15(ctx):
         got = [l for l in lines if not l.startswith("R loc ") and not l.startswith("S ") and not l.startswith("L GLOBAL")]
         # same values and same text as in the C locale (the reference case has no locale ops: drop their 'R unit')
         nops = sum(1 for l in script.splitlines() if l.startswith("locale "))
-        got2 = got[:3] + got[3 + nops:]
+        sl = [l for l in script.splitlines() if l]
+        npre = next((i for i, l in enumerate(sl) if l.startswith(("locale ", "locq"))), 0)     # init and the fs puts
+        got2 = got[:npre] + got[npre + nops:]
         nref = len([l for l in c15_body(None, None).splitlines() if l])
         full = len([l for l in script.splitlines() if l and not l.startswith("locale ")]) == nref
         if full and got2 != ref_lines:
